@@ -38,7 +38,7 @@ Proof.
   - apply store_split in H as (A & _ & H). rewrite A. cbn [andb]. rewrite Bool.andb_true_r.
     destruct prev as [p|]; [|apply H]. destruct H as (B1 & B2 & B3 & _ & _ & _ & B7). now rewrite B1, B2, B3, B7.
   - unfold user_ok in H. destruct (is_step_fn u); [|reflexivity]. destruct persisted as [p|]; [|discriminate].
-    repeat match type of H with (_ && _ = true) => let H' := fresh "C" in apply andb_prop in H as [H H'] end. cbn. exact C2.
+    repeat match type of H with (_ && _ = true) => let H' := fresh "C" in apply andb_prop in H as [H H'] end. cbn. assumption.
 Qed.
 
 Lemma tok_mon_C03 t : tok_ok g t = true -> mon_C03 g t = true.
@@ -69,7 +69,7 @@ Lemma tok_mon_C04 t : tok_ok g t = true -> mon_C04 g t = true.
 Proof.
   destruct t; try reflexivity; unfold mon_C04, on_store, on_step_call; cbn [tok_ok]; intros H.
   unfold user_ok in H. destruct (is_step_fn u); [|reflexivity]. destruct persisted as [p|]; [|discriminate].
-  repeat match type of H with (_ && _ = true) => let H' := fresh "C" in apply andb_prop in H as [H H'] end. exact C1.
+  repeat match type of H with (_ && _ = true) => let H' := fresh "C" in apply andb_prop in H as [H H'] end. assumption.
 Qed.
 
 Lemma tok_mon_C08 t : tok_ok g t = true -> mon_C08 g t = true.
@@ -81,7 +81,7 @@ Proof.
     assert (E : r_status r = r_status p) by (destruct F9 as [E|(_ & E & _)]; [exact E|discriminate]).
     rewrite E, Z.eqb_refl. cbn. destruct F10 as [E2|[E2|(_ & E2)]]; [rewrite E2, obj_eqb_refl; reflexivity|rewrite E2; cbn; apply Bool.orb_true_r|discriminate].
   - unfold user_ok in H. destruct (is_step_fn u); [|reflexivity]. destruct persisted as [p|]; [|discriminate].
-    repeat match type of H with (_ && _ = true) => let H' := fresh "C" in apply andb_prop in H as [H H'] end. cbn. exact H.
+    repeat match type of H with (_ && _ = true) => let H' := fresh "C" in apply andb_prop in H as [H H'] end. cbn. assumption.
 Qed.
 
 Lemma tok_mon_C15 t : tok_ok g t = true -> mon_C15 g t = true.
@@ -106,15 +106,23 @@ Proof.
     + rewrite L2. reflexivity.
 Qed.
 
+Lemma tok_mon_C12 t : tok_ok g t = true -> mon_C12 g t = true.
+Proof.
+  destruct t; try reflexivity. cbn [tok_ok]. intros H. unfold mon_C12. destruct u; try reflexivity.
+  unfold user_ok in H. cbn [is_step_fn] in H. destruct persisted as [p|]; [|discriminate].
+  repeat match type of H with (_ && _ = true) => let H' := fresh "C" in apply andb_prop in H as [H H'] end.
+  apply andb_prop in C as [A B]. rewrite A, H, B. reflexivity.
+Qed.
+
 End MP.
 
 (* every token of every history passes every per-property monitor *)
 Theorem monitors_hold (c : econfig) (ops : list eop) : hist_ok ops ->
   forall t, In t (trace_of c ops) ->
     mon_C02 (ec_graph c) t = true /\ mon_C03 (ec_graph c) t = true /\ mon_C04 (ec_graph c) t = true /\
-    mon_C08 (ec_graph c) t = true /\ mon_C09 (ec_graph c) t = true /\ mon_C15 (ec_graph c) t = true /\
-    mon_C16 (ec_graph c) t = true.
+    mon_C08 (ec_graph c) t = true /\ mon_C09 (ec_graph c) t = true /\ mon_C12 (ec_graph c) t = true /\
+    mon_C15 (ec_graph c) t = true /\ mon_C16 (ec_graph c) t = true.
 Proof.
   intros H t Ht. pose proof (tok_in c ops H t Ht) as Hok.
-  repeat split; [apply tok_mon_C02|apply tok_mon_C03|apply tok_mon_C04|apply tok_mon_C08|apply tok_mon_C09|apply tok_mon_C15|apply tok_mon_C16]; exact Hok.
+  repeat split; [apply tok_mon_C02|apply tok_mon_C03|apply tok_mon_C04|apply tok_mon_C08|apply tok_mon_C09|apply tok_mon_C12|apply tok_mon_C15|apply tok_mon_C16]; exact Hok.
 Qed.
